@@ -163,7 +163,7 @@ def check(cfg, lines):
                 # out-edge with room left for it at this very point had granted its request too
                 slack = ncfg[src]["wcap"] - 1
                 for e2 in ncfg[src]["outs"][:ncfg[src]["outs"].index(ed)]:
-                    if len(inside[e2]) + slack < ecfg[e2]["cap"]:
+                    if len(inside[e2]) + slack < ecfg[e2]["cap"] and ecfg[e2]["kind"] != "conv":
                         v("C15", "blocking machine %d (FIRST_AVAILABLE) pushed item %d to out-edge %d at %s although the lower-index out-edge %d held %d of %d" %
                           (src, i, ed, t, e2, len(inside[e2]), ecfg[e2]["cap"]))
             if not ncfg[src]["blocking"] and ncfg[src]["outsel"][0] == "FA" and ncfg[src]["kind"] != "source":
@@ -199,7 +199,7 @@ def check(cfg, lines):
             if place.get(i) != ("edge", ed):
                 v("C03", "item %d taken from edge %d at %s while it is at %s" % (i, ed, t, place.get(i)))
             else:
-                fifo = ecfg[ed]["kind"] == "fleet" or (ecfg[ed].get("mode") == "FIFO" and len(ecfg[ed].get("delays", [0])) == 1)
+                fifo = ecfg[ed]["kind"] in ("fleet", "conv") or (ecfg[ed].get("mode") == "FIFO" and len(ecfg[ed].get("delays", [0])) == 1)
                 if fifo and inside[ed][0] != i:
                     v("C06", "item %d taken from FIFO edge %d at %s while item %d, which became available before it, is still inside" %
                       (i, ed, t, inside[ed][0]))
@@ -253,7 +253,7 @@ def check(cfg, lines):
                 probe = outs_ if ncfg[n]["outsel"][0] == "FA" else []
                 slack = ncfg[n]["wcap"] - 1
                 for e2 in probe:
-                    if len(inside[e2]) + slack < ecfg[e2]["cap"]:
+                    if len(inside[e2]) + slack < ecfg[e2]["cap"] and ecfg[e2]["kind"] != "conv":
                         v("C09", "non-blocking node %d dropped item %d at %s although out-edge %d held %d of %d" %
                           (n, i, t, e2, len(inside[e2]), ecfg[e2]["cap"]))
             if ncfg[n]["blocking"]:
@@ -439,6 +439,8 @@ def check(cfg, lines):
         """an instant t' with lo <= t' < hi at whose end edge ed holds fewer items than its capacity"""
         h = occ_hist[ed]
         cap = ecfg[ed]["cap"]
+        if ecfg[ed]["kind"] == "conv":
+            return None                  # a belt's entrance opens by the passage of time, not by room alone
         before = 0
         for (tt, oc) in h:
             if tt <= lo:
